@@ -2000,7 +2000,29 @@ func c07GrowCap(c *Ctx, r *bufRoles) {
 			}
 		}
 		o.Site(clampIf.Pos(), "4 MiB clamp guarded by %d 'no size limit' / constant edge(s)", len(cut))
-		if len(cut) == 0 || !unreachableWithout(fn, clampIf, cut) {
+		guarded := len(cut) > 0 && unreachableWithout(fn, clampIf, cut)
+		if !guarded {
+			// the guard kept in a boolean (userLimitOnly := limitSize > 0 && !sizeHardLimit; if !userLimitOnly && …):
+			// path by path, with the boolean resolved by the edge taken
+			hasLimit := atom{Form: linSym(recv + "." + r.limitSize)} // limitSize > 0
+			okAll, decided := everyUnitPathToResolved(fn, clampIf, func(conds []fact) bool {
+				for _, ft := range conds {
+					if _, isC := ft.Cond.(*ssa.Const); isC {
+						return true // decided by a build-time constant (the hard-limit configuration)
+					}
+					a, pol, ok := atomOf(ft.Cond, ft.Val, nil)
+					if !ok || a.Eq {
+						continue
+					}
+					if (pol && a.Form.eq(noLimit.Form)) || (!pol && a.Form.eq(hasLimit.Form)) {
+						return true
+					}
+				}
+				return false
+			})
+			guarded = okAll && decided
+		}
+		if !guarded {
 			o.Fail(clampIf.Pos(), "the 4 MiB clamp can apply although a size limit is set (it must be guarded by limitSize <= 0, or by the hard-limit build constant): with a limit near 4 MiB the ring cannot hold limitSize bytes plus the slack byte")
 		}
 	}
